@@ -79,6 +79,8 @@ pub struct ApiCall {
     pub handle: Option<JoinHandle<ApiOut>>,
     pub done: Option<(Duration, ApiOut)>,
     pub payload: Vec<u8>,
+    /// the caller gave up waiting (dropped the future): no outcome is owed to anybody
+    pub abandoned: bool,
 }
 
 struct TalkCase {
@@ -117,6 +119,8 @@ pub struct Sys {
     /// the records the user handed to add_enr
     pub added_raw: HashSet<Vec<u8>>,
     debug_bans: usize,
+    /// the scenario proper is over (postlude running): the step monitors are off
+    closed: bool,
     pub established: HashSet<Id>,
     table_prev: Vec<(Id, Enr, bool, bool)>,
     records_seen: HashMap<Id, (u64, Vec<u8>)>,
@@ -156,6 +160,7 @@ impl Sys {
             added: HashSet::new(),
             added_raw: HashSet::new(),
             debug_bans: 0,
+            closed: false,
             established: HashSet::new(),
             table_prev: Vec::new(),
             records_seen: HashMap::new(),
@@ -202,26 +207,40 @@ impl Sys {
     pub fn api_find_node(&mut self, target: Id) {
         let fut = self.w.discv5.find_node(NodeId::new(&target));
         let h = tokio::spawn(async move { ApiOut::Nodes(fut.await.map_err(|e| format!("{e:?}"))) });
-        self.apis.push(ApiCall { what: "find_node".into(), node: None, target: Some(target), started: self.w.now(), handle: Some(h), done: None, payload: vec![] });
+        self.apis.push(ApiCall { what: "find_node".into(), node: None, target: Some(target), started: self.w.now(), handle: Some(h), done: None, payload: vec![], abandoned: false });
     }
 
     pub fn api_find_node_predicate(&mut self, target: Id, want: usize) {
         let fut = self.w.discv5.find_node_predicate(NodeId::new(&target), Box::new(|e: &Enr| e.seq() % 2 == 0), want);
         let h = tokio::spawn(async move { ApiOut::Nodes(fut.await.map_err(|e| format!("{e:?}"))) });
-        self.apis.push(ApiCall { what: format!("find_node_predicate {want}"), node: None, target: Some(target), started: self.w.now(), handle: Some(h), done: None, payload: vec![] });
+        self.apis.push(ApiCall { what: format!("find_node_predicate {want}"), node: None, target: Some(target), started: self.w.now(), handle: Some(h), done: None, payload: vec![], abandoned: false });
     }
 
     pub fn api_talk(&mut self, i: usize, payload: Vec<u8>) {
         let Ok(contact) = NodeContact::try_from_enr(self.w.enr(i), discv5::IpMode::DualStack) else { return };
         let fut = self.w.discv5.talk_req(contact, b"sys".to_vec(), payload.clone());
         let h = tokio::spawn(async move { ApiOut::Talk(fut.await.map_err(|e| format!("{e:?}"))) });
-        self.apis.push(ApiCall { what: "talk_req".into(), node: Some(i), target: None, started: self.w.now(), handle: Some(h), done: None, payload });
+        self.apis.push(ApiCall { what: "talk_req".into(), node: Some(i), target: None, started: self.w.now(), handle: Some(h), done: None, payload, abandoned: false });
     }
 
     pub fn api_ping(&mut self, i: usize) {
         let fut = self.w.discv5.send_ping(self.w.enr(i));
         let h = tokio::spawn(async move { ApiOut::Pong(fut.await.map(|p| (p.enr_seq, p.ip, p.port)).map_err(|e| format!("{e:?}"))) });
-        self.apis.push(ApiCall { what: "send_ping".into(), node: Some(i), target: None, started: self.w.now(), handle: Some(h), done: None, payload: vec![] });
+        self.apis.push(ApiCall { what: "send_ping".into(), node: Some(i), target: None, started: self.w.now(), handle: Some(h), done: None, payload: vec![], abandoned: false });
+    }
+
+    /// The caller of a pending call stops waiting for it (drops the future).
+    pub fn api_abandon_one(&mut self, rng: &mut Rng) -> bool {
+        let pending: Vec<usize> = self.apis.iter().enumerate().filter(|(_, a)| a.done.is_none() && a.handle.as_ref().map(|h| !h.is_finished()).unwrap_or(false)).map(|(k, _)| k).collect();
+        if pending.is_empty() {
+            return false;
+        }
+        let k = *rng.pick(&pending);
+        if let Some(h) = self.apis[k].handle.take() {
+            h.abort();
+        }
+        self.apis[k].abandoned = true;
+        true
     }
 
     /// The user knows node `i` only by public key and socket (a multiaddr) and asks for its record.
@@ -230,13 +249,13 @@ impl Sys {
         let ma = crate::util::multiaddr_of(&pk, &self.w.nodes[i].sim.addr());
         let fut = self.w.discv5.request_enr(ma.clone());
         let h = tokio::spawn(async move { ApiOut::Nodes(fut.await.map(|e| vec![e]).map_err(|e| format!("{e:?}"))) });
-        self.apis.push(ApiCall { what: format!("request_enr {ma}"), node: Some(i), target: None, started: self.w.now(), handle: Some(h), done: None, payload: vec![] });
+        self.apis.push(ApiCall { what: format!("request_enr {ma}"), node: Some(i), target: None, started: self.w.now(), handle: Some(h), done: None, payload: vec![], abandoned: false });
     }
 
     pub fn api_find_designated(&mut self, i: usize, distances: Vec<u64>) {
         let fut = self.w.discv5.find_node_designated_peer(self.w.enr(i), distances.clone());
         let h = tokio::spawn(async move { ApiOut::Nodes(fut.await.map_err(|e| format!("{e:?}"))) });
-        self.apis.push(ApiCall { what: format!("find_node_designated_peer {distances:?}"), node: Some(i), target: None, started: self.w.now(), handle: Some(h), done: None, payload: vec![] });
+        self.apis.push(ApiCall { what: format!("find_node_designated_peer {distances:?}"), node: Some(i), target: None, started: self.w.now(), handle: Some(h), done: None, payload: vec![], abandoned: false });
     }
 
     async fn reap(&mut self) {
@@ -329,6 +348,9 @@ impl Sys {
     }
 
     fn after_step(&mut self, rep: &mut Report) {
+        if self.closed {
+            return;
+        }
         let now = self.w.now();
         if std::env::var("DV5_DEBUG").is_ok() {
             let bans = discv5::verif::ban_list_snapshot();
@@ -898,6 +920,10 @@ impl Sys {
         rep.count_n("sys_exempt_observations", self.exempt_seen);
         // ---- API results against what the nodes really did ----
         for a in &self.apis {
+            if a.abandoned {
+                rep.count("sys_api_calls_abandoned_by_the_caller");
+                continue;
+            }
             let Some((_, out)) = &a.done else {
                 rep.count("sys_api_calls_open_at_end");
                 self.flag(rep, Focus::C04, "C04:api-call-without-outcome", format!("{} (started at {:?}) has neither returned a result nor an error long after every timeout", a.what, a.started), json!({"call": a.what}));
@@ -1032,7 +1058,13 @@ pub fn mixed(seed: u64, focus: Focus, rep: &mut Report) {
         }
         let nops = 10 + rng.usize(30);
         for _ in 0..nops {
-            match rng.below(18) {
+            match rng.below(19) {
+                18 => {
+                    // the caller of a pending call gives up on it
+                    if s.api_abandon_one(&mut rng) {
+                        rep.count("sys_api_calls_abandoned");
+                    }
+                }
                 16 | 17 => {
                     // simultaneous open: the node under test and a peer dial each other at the same
                     // moment; sometimes the peer has just signed a new record, which may name an
@@ -1145,6 +1177,34 @@ pub fn mixed(seed: u64, focus: Focus, rep: &mut Report) {
         s.w.faults = Faults3::default();
         s.settle_all(Duration::from_secs(150), rep).await;
         s.finish(rep);
+        // postlude: the user shuts the node down while calls are in flight: each of them must
+        // come back (with an error), none may hang for ever
+        if rng.chance(1, 4) {
+            let n0 = s.apis.len();
+            let t: Id = rng.array();
+            s.api_find_node(t);
+            let i = *rng.pick(&all);
+            s.api_ping(i);
+            let j = *rng.pick(&all);
+            s.api_talk(j, b"bye".to_vec());
+            if rng.bool() {
+                s.tick(rep).await;
+            }
+            if let Some(d) = std::sync::Arc::get_mut(&mut s.w.discv5) {
+                s.closed = true;
+                d.shutdown();
+                s.advance(s.w.request_timeout * 6 + Duration::from_secs(5), rep).await;
+                s.reap().await;
+                rep.count("sys_shutdowns_with_calls_in_flight");
+                for a in &s.apis[n0..] {
+                    if a.done.is_none() {
+                        let what = a.what.clone();
+                        s.flag(rep, Focus::C04, "C04:api-call-hangs-after-shutdown", format!("{what} was in flight when the node was shut down and never returned"), json!({"call": what}));
+                        break;
+                    }
+                }
+            }
+        }
         if std::env::var("DV5_TRACE").is_ok() {
             eprintln!("{}", serde_json::to_string_pretty(&s.w.dump(100000)).unwrap());
         }
